@@ -38,6 +38,12 @@ impl Case {
         }
     }
     fn json_with(&self, codes: &[[u16; 3]]) -> Value {
+        if codes.len() > 4096 {
+            if let Codes::Seeded { stratum, seed, n } = &self.codes {
+                return json!({"prop":"C08","cfg":cfg_json(&self.cfg),"storage": if self.u8_storage {"u8"} else {"u16"},
+                    "seeded": {"stratum": stratum, "seed": seed.to_string(), "n": n}, "layout": self.layout});
+            }
+        }
         json!({"prop":"C08","cfg":cfg_json(&self.cfg),"storage": if self.u8_storage {"u8"} else {"u16"}, "codes": codes, "layout": if codes.len() == 1 { None } else { self.layout }})
     }
 }
@@ -155,8 +161,46 @@ pub fn check(case: &Case, st: &mut Stats) -> Result<(), Violation> {
     Ok(())
 }
 
+/// real-size frames (see gen::LARGE_SIZES); as in C01
+fn large_frames(ctx: &Ctx, st: &mut Stats) -> Vec<Violation> {
+    let sizes: Vec<(usize, usize)> = if ctx.light { vec![(256, 128), (257, 255), (521, 511)] } else if ctx.quick() { crate::gen::LARGE_SIZES[..8].to_vec() } else { crate::gen::LARGE_SIZES.to_vec() };
+    let seed0 = ctx.seed;
+    par_sweep(ctx, st, sizes.len() as u64, |lo, hi, st| {
+        for j in lo..hi {
+            let (w, h) = sizes[j as usize];
+            let mut k = 0u64;
+            for (depth, u8s) in [(8u8, true), (16, false), (8, false), (10, false)] {
+                for full in [false, true, false] {
+                    let mc = STD_MC[((j + k) % 7) as usize];
+                    k += 1;
+                    let case = Case {
+                        cfg: cfg(mc, TC::BT1886, CP::BT709, depth, full, (0, 0)),
+                        u8_storage: u8s,
+                        codes: Codes::Seeded { stratum: [1u8, 5, 0, 3][(k % 4) as usize], seed: mix64(seed0 ^ (j << 8) ^ k), n: w * h },
+                        layout: Some((h, [(0, 0), ((k % 3) as usize, 0), (0, (k % 2) as usize)])),
+                    };
+                    let mut local = Stats::new();
+                    local.sample_budget = 0;
+                    if let Err(v) = check(&case, &mut local) {
+                        return Some(v);
+                    }
+                    st.evaluations += 1;
+                    st.comparisons += (w * h * 3) as u64;
+                    st.nontrivial_by_construction += 1;
+                    st.class("large_frames", 1);
+                }
+            }
+        }
+        None
+    })
+}
+
 pub fn run(ctx: &Ctx, st: &mut Stats) -> Vec<Violation> {
     let mut v = run_proptest(ctx, st, "random", ctx.cases(30_000, 300_000), strategy, check);
+    if !v.is_empty() {
+        return v;
+    }
+    v.extend(large_frames(ctx, st));
     if !v.is_empty() {
         return v;
     }
@@ -283,14 +327,21 @@ fn plane_sweeps(ctx: &Ctx, st: &mut Stats) -> Vec<Violation> {
 
 pub fn replay(v: &Value) -> Result<(), String> {
     let cfg = cfg_from_json(v.get("cfg").ok_or("cfg")?).ok_or("bad cfg")?;
-    let codes: Vec<[u16; 3]> = serde_json::from_value(v.get("codes").ok_or("codes")?.clone()).map_err(|e| e.to_string())?;
+    let codes = match v.get("seeded") {
+        Some(sd) => Codes::Seeded {
+            stratum: sd.get("stratum").and_then(|x| x.as_u64()).ok_or("stratum")? as u8,
+            seed: sd.get("seed").and_then(|x| x.as_str()).and_then(|x| x.parse().ok()).ok_or("seed")?,
+            n: sd.get("n").and_then(|x| x.as_u64()).ok_or("n")? as usize,
+        },
+        None => Codes::Explicit(serde_json::from_value(v.get("codes").ok_or("codes")?.clone()).map_err(|e| e.to_string())?),
+    };
     let case = Case {
         cfg,
         u8_storage: v.get("storage").and_then(|s| s.as_str()) == Some("u8"),
-        codes: Codes::Explicit(codes),
+        codes,
         layout: v.get("layout").and_then(|l| serde_json::from_value(l.clone()).ok()).flatten(),
     };
     check(&case, &mut Stats::new()).map_err(|v| v.message)
 }
 
-pub const RULE: &str = "cases = (matrix in 7 standard, range, depth 8..16, storage, batch of code triples as in C01: 6 strata incl. related neighbours, 1..4 rows, independent per-plane paddings) generated by proptest, plus enumerated 8-bit cube slices (quick: every 13th luma plane; thorough: all 2^24 triples) and per-plane complete sweeps at 9..16 bit; oracle = sample-exact equality with the input clamped to the legal limited range, the only tolerated deviation (full-range chroma 0 -> 1) recognised exactly and counted; non-trivial = batch containing a non-neutral-chroma triple; distinct = by hash of (config, batch)";
+pub const RULE: &str = "cases = (matrix in 7 standard, range, depth 8..16, storage, batch of code triples as in C01: 6 strata incl. related neighbours, 1..4 rows, independent per-plane paddings) generated by proptest, plus real-size frames (32768 .. 2 M pixels, rows up to 131080 wide, pixel counts not divisible by 8), plus enumerated 8-bit cube slices (quick: every 13th luma plane; thorough: all 2^24 triples) and per-plane complete sweeps at 9..16 bit; oracle = sample-exact equality with the input clamped to the legal limited range, the only tolerated deviation (full-range chroma 0 -> 1) recognised exactly and counted; non-trivial = batch containing a non-neutral-chroma triple; distinct = by hash of (config, batch)";
